@@ -60,6 +60,12 @@ CHECKS = {
         "Trusts PRINT of an Integer (validated by C11) and the harness build profile (overflow checks off, like the shipped binary). Random part: absence only up to sampling.",
         "6 C08",
     ),
+    "C20": (
+        "metamorphic testing: proptest-generated programs under layout transformations (renumbering, inserted remark/unreachable lines, empty statements, line splitting) must behave identically up to reported line numbers; direct lines independent of the program in memory; direct line vs one-line program",
+        "Exploration with a metamorphic oracle: each case runs the original and the transformed program (and a direct line with three different programs in memory) and compares transcripts and final variables exactly after mapping line numbers back; the transformations move the code address of jump targets, WHILE/WEND pairs, DATA and FOR/GOSUB return points without changing meaning.",
+        "Same implementation on both sides; meaning-preservation of the transformations rests on the manual's line semantics (IF scoping is respected when splitting).",
+        "6 C20",
+    ),
 }
 
 NOT_YET = "check under construction in this session (will be claimed once its generator and oracle are committed)"
